@@ -5,6 +5,7 @@ response that arrives before the registration is lost for good: the order `AddTa
 harmless. Model `LinVerif.TaskMgr` over `RootMerge.Ctx`.
 -/
 import LinVerif.Model.TaskMgr
+import LinVerif.Props.C12
 import LinVerif.Generated.C12
 
 namespace LinVerif.Props.C12
@@ -170,6 +171,70 @@ theorem late_registration_never_completes (keep : Bool) (v : Variant)
   · show (((s1.step keep v .add).run keep v ((late.map Resp.ok).map Ev.recv)).ctx.complete keep none).err = none
     rw [hc2]
     exact (complete_none_pending keep _ hok.1 hok.2.1 hpos).2
+
+end Neg
+
+/-- fewer non-failing responses (data, empty, tolerated not-found) than planned targets: the
+context is not done and has no error — for every number of targets and every such list -/
+theorem handleAll_nonfailing_pending (v : Variant) : ∀ (rs : List Resp) (c : Ctx),
+    c.err = none → c.done = false → (∀ r ∈ rs, isFailure r = false) →
+    (rs.length : Int) < c.expect → (rs.length : Int) < c.tolerant →
+    (c.handleAll v rs).err = none ∧ (c.handleAll v rs).done = false := by
+  intro rs
+  induction rs with
+  | nil => intro c he hd _ _ _; exact ⟨he, hd⟩
+  | cons r rs ih =>
+    intro c he hd hall hx ht
+    have hr := hall r List.mem_cons_self
+    have hrest : ∀ r' ∈ rs, isFailure r' = false := fun r' h => hall r' (List.mem_cons_of_mem _ h)
+    have hx' : (rs.length : Int) + 1 < c.expect := by simpa using hx
+    have ht' : (rs.length : Int) + 1 < c.tolerant := by simpa using ht
+    have hstep : (c.handle v r).err = none ∧ (c.handle v r).done = false ∧
+        (rs.length : Int) < (c.handle v r).expect ∧ (rs.length : Int) < (c.handle v r).tolerant := by
+      cases r with
+      | error => simp [isFailure] at hr
+      | bad => simp [isFailure] at hr
+      | ok p =>
+        simp only [Ctx.handle, Ctx.absorb]
+        split
+        · refine ⟨he, ?_, ?_, ?_⟩
+          · simp [he, hd]; omega
+          · show (rs.length : Int) < c.expect - 1; omega
+          · show (rs.length : Int) < c.tolerant; omega
+        · refine ⟨he, ?_, ?_, ?_⟩
+          · simp [he, hd]; omega
+          · show (rs.length : Int) < c.expect - 1; omega
+          · show (rs.length : Int) < c.tolerant; omega
+      | notFound =>
+        have hpos : c.tolerant - 1 > 0 := by omega
+        simp only [Ctx.handle, Ctx.absorb, hpos, if_true]
+        refine ⟨he, ?_, ?_, ?_⟩
+        · simp [he, hd]; omega
+        · show (rs.length : Int) < c.expect - 1; omega
+        · show (rs.length : Int) < c.tolerant - 1; omega
+    exact ih (c.handle v r) hstep.1 hstep.2.1 hrest hstep.2.2.1 hstep.2.2.2
+
+namespace Neg
+
+/-- Finding (e) for EVERY configuration: whenever the plan of a group-by query has two or more
+targets (two or more live brokers and compute nodes), exactly one of them executes
+(`plan_has_one_executor`), the receive-only ones answer nothing
+(`intermediateTaskProcessor.Process` returns without a response), so the root — which expects one
+response per target — is not complete after the only response it will ever get. -/
+theorem receive_only_targets_never_answer (v : Variant) (live : List Nat) (hl : live ≠ []) (n : Nat)
+    (perm : List Nat) (hp : perm.Perm (List.range live.length)) (h2 : 2 ≤ min n live.length)
+    (r : Resp) (hr : isFailure r = false) :
+    let plan := buildPlan live n perm
+    (executors plan).length = 1 ∧ ((Ctx.new plan.length).handleAll v [r]).done = false := by
+  intro plan
+  have hn : 1 ≤ n := by omega
+  have hplan := plan_has_one_executor live hl n hn perm hp
+  refine ⟨hplan.1, ?_⟩
+  have hlen : plan.length = min n live.length := hplan.2.1
+  refine (handleAll_nonfailing_pending v [r] (Ctx.new plan.length) rfl rfl ?_ ?_ ?_).2
+  · intro r' hr'; simp at hr'; subst hr'; exact hr
+  · show ((1 : Nat) : Int) < ((plan.length : Nat) : Int); omega
+  · show ((1 : Nat) : Int) < ((plan.length : Nat) : Int); omega
 
 end Neg
 
